@@ -646,5 +646,21 @@ def run(rep: Report, tier: str):
     mainf = repo.func("fickling.cli.main")
     for key, (c, msg) in sorted(found.items()):
         rep.bad("C10.faces-worlds", mainf.qualname, key, f"{msg} [{c} world(s)]", mainf.file, mainf.line)
-    rep.ok("C10.faces-worlds", mainf.qualname, f"{n_worlds} worlds (stacks of 1-3 pickles drawn from five verdict classes, with and without --print-results): cli.main --check-safety interpreted end to end, its exit status and the JSON documents it appends compared with check_safety(<each pickle>).severity computed by the same interpreted analyses", "", nontrivial=True)
+    # the checked loader's face, on the same pickles one by one: it raises exactly when the verdict is above LIKELY_SAFE
+    from .. import loadworlds as _lw
+    from ..cliworlds import _verdict_pickles
+    from ..minieval import Unsupported as _Uns
+
+    n_loader = 0
+    for label, data in _verdict_pickles():
+        for arming in ("checked loader", "global hook"):
+            try:
+                devs = _lw.run_world(repo, label, data, "LIKELY_SAFE", arming, "in-memory")
+            except _Uns as e:
+                raise AnalysisError(f"C10 loader face: cannot interpret the {arming} over {label}: {e}")
+            n_loader += 1
+            for key, msg in devs:
+                if key.startswith(("loaded-above-threshold", "refused-below-threshold")):
+                    rep.bad("C10.faces-worlds", "fickling.loader.load", "loader-face-disagrees:" + key.split(":")[0], f"{msg} - the library verdict and the loader disagree about the same bytes", "fickling/loader.py", 1)
+    rep.ok("C10.faces-worlds", mainf.qualname, f"{n_loader} loader worlds (each verdict pickle through fickling.load and the hooked pickle.load: raises iff the verdict is above LIKELY_SAFE); {n_worlds} worlds (stacks of 1-3 pickles drawn from five verdict classes, with and without --print-results): cli.main --check-safety interpreted end to end, its exit status and the JSON documents it appends compared with check_safety(<each pickle>).severity computed by the same interpreted analyses", "", nontrivial=True)
 
